@@ -55,6 +55,21 @@ func init() {
 			if x.Kind() == reflect.Func {
 				return x.Pointer(), true
 			}
+		case []sendBufferItem:
+			// offline frames as the ack ids they are tagged with (-1: none)
+			out := make([]int, len(x))
+			for i, it := range x {
+				out[i] = -1
+				if it.ackID != nil {
+					out[i] = int(*it.ackID)
+				}
+			}
+			return out, true
+		case *uint64:
+			if x == nil {
+				return -1, true
+			}
+			return int(*x), true
 		case []reflect.Value:
 			out := make([]uintptr, len(x))
 			for i, h := range x {
